@@ -10,19 +10,19 @@ PROPS = {
                  "in order; uses the C11 tiling lemmas and that the end days are registered before Build), C20_zero_of_day_equation + C20_zero_when_only_external_flows_partial (prices declared on day one only, no annotations, "
                  "transactions of booking pairs, no --commodity, no zero denominator => EVERY return is exactly 0: the day equation V1-V0 = inflow+outflow is carried through ComputeValues, "
                  "ComputeFlows' split by sign, the cancellation of internal transfers, and Valuate booking no adjustment while prices rest), C20_ratio_without_flows (telescoping: V1(last)/V0(first)-1 over linked days without flows), C20_days_linked. Decided witnesses of two defects of "
-                 "the real code: C20_filtered_flow_counts, C20_last_folds_earlier_periods. NOT mechanised: the float64 arithmetic; the zero clause per single period and for the general notion of 'prices "
+                 "the real code: C20_filtered_flow_counts (open) and C20_last_reports_own_period (repaired by 32cd4f9: Perf skips the days before the first reported period, model `perfSpan`, lemma perfSpan_filter, C20_before_first_period_skipped). NOT mechanised: the float64 arithmetic; the zero clause per single period and for the general notion of 'prices "
                  "unchanged'; the equality of V1 with the valued balance (checked against `knut balance -v V --csv -s .` on every case instead). Tie: `portfolio returns`, `portfolio weights "
                  "--csv` (+ text rendering for the tree depth) and `balance -v` run as subprocesses; returns/weights compared with the exact model after rounding to the printed digits (1-2 units).",
         "note": "Trusted: Lean kernel; axioms propext, Classical.choice, Quot.sound; float64 vs exact arithmetic bounded only by the per-case tolerance comparison; `Commodity.IsCurrency` is never "
                 "set by the CLI (pickTargets returns the annotation's list); sequential pipeline semantics (C19); yaml/regexp/cobra; sibling order under the weighted sort is compared as a set "
-                "and checked for monotonicity (float ties). Known findings: returns-commodity-filter-counts-filtered-flows, returns-last-folds-earlier-periods.",
+                "and checked for monotonicity (float ties). Known findings: returns-commodity-filter-counts-filtered-flows, returns-meaningless-when-start-value-plus-inflow-vanishes; repaired: returns-last-folds-earlier-periods (32cd4f9).",
         "rule": "streams portfolio (lifecycle journals over 3-800 days with re-pricing on later and otherwise empty days, x window from/to incl. period ends on days without directives, "
                 "six intervals, --last, account/commodity filters, universe files with nested classes, -m mappings with level 0-3 and suffix, -a), external (constant prices, no annotations: "
                 "every return must be 0), noflow (all transactions on the first day, then only price changes: return = end/start-1 from the balance totals), malformed (lifecycle mutations, "
                 "dropped prices, no -v, inverted windows, duplicate universe entries). class = (stream, outcomes, flag signature, size bucket).",
         "assumptions": ["exact rational arithmetic in place of float64 (outputs compared after rounding to the printed digits with 1-2 units tolerance)",
                         "C20_zero_when_only_external_flows_partial assumes the day equation V1-V0 = net external flow, C20_ratio_without_flows non-zero start values"],
-        "trusted": ["known findings: returns-commodity-filter-counts-filtered-flows, returns-last-folds-earlier-periods"],
+        "trusted": ["known findings: returns-commodity-filter-counts-filtered-flows, returns-meaningless-when-start-value-plus-inflow-vanishes"],
     },
     "C16": {
         "lean": ["Knut.Properties.C16"],
@@ -330,12 +330,12 @@ PROPS = {
                  "CSVRenderer.Render with encoding/csv quoting), for all tables whose rows have a common number n>=1 of cells with non-negative indents and no line breaks, "
                  "all amounts, every --digits (any integer) and --thousands on/off: all lines have the same rune width (C17_rectangular); n+1 character columns hold a "
                  "separator on every line (C17_separators_aligned); every line decomposes into slots of the final column widths and every slot shows its cell "
-                 "(C17_text_conforms; C17_text_conforms_exact for the exact quotient by 1000 when -k is off or amounts have <= 13 decimals); without commas a number text reads "
-                 "as Round(digits)(amount) resp. Round(digits)(Div(amount,1000)) (C17_num_value, C17_num_value_exact), starts with '-' iff that value is negative (C17_sign), "
+                 "(C17_text_conforms; the code's quotient by 1000 is the exact one since the repair 93a24c8 replaced Div(1000) by Shift(-3): exactTarget = codeTarget by rfl); without commas a number text reads "
+                 "as Round(digits)(amount) resp. Round(digits)(amount/1000) for EVERY amount (C17_num_value, C17_num_value_exact_all), starts with '-' iff that value is negative (C17_sign), "
                  "is blank iff the amount is zero (C17_blank), is grouped exactly as the independent grouper groupLeft does with digits-only fraction of the requested length "
                  "(C17_grouping, C17_fraction_digits, C17_only_commas_inserted); CSV records are the non-blank rows in order with texts verbatim and amounts reading back "
-                 "exactly (C17_csv_positions) and the CSV bytes parse back to those records (C17_csv_roundtrip). Decided witnesses: the -k double rounding beyond 13 decimals "
-                 "(known finding) and the unsigned zero for a negative amount that rounds to zero. Tie: byte comparison of the real TextRenderer/CSVRenderer with the model "
+                 "exactly (C17_csv_positions) and the CSV bytes parse back to those records (C17_csv_roundtrip). Decided witnesses: C17_no_double_rounding (the input of the former defect thousands-with-more-than-13-decimals now prints 0; the old 16-place quotient gave 1) "
+                 "and the unsigned zero for a negative amount that rounds to zero. Tie: byte comparison of the real TextRenderer/CSVRenderer with the model "
                  "on generated tables (numbers, balance-shaped, malformed), the Lean predicates evaluated on the real output of every case, the shopspring correspondence "
                  "stream, and `knut balance` text vs --csv of generated journals (text re-rendered by the model from the CSV amounts; predicate with the CSV amounts).",
         "note": "Trusted: Lean kernel; axioms propext, Classical.choice, Quot.sound; shopspring StringFixed/Div/String as modelled in Knut.Basic.Dec (sampled by the dec stream); "
